@@ -417,6 +417,16 @@ class InstantRepair:
             dev.restore_functionality()
 
 
+class RetryRepair:
+    '''Shutdown callback for a micro-stop: the failed machine is restored at once and gets the part it lost again.'''
+
+    def __call__(self, dev, is_failure, part):
+        if is_failure:
+            dev.restore_functionality()
+            if part is not None:
+                dev.give_part(part)
+
+
 class CycleByOrdinal:
     '''Receive callback: sets the cycle time / one-shot offset for the n-th part.'''
 
@@ -771,6 +781,8 @@ class LineWorld:
                 o.add_shutdown_callback(AutoRepair(self.dev, self.hub, d['auto_repair']))
             if d.get('instant_repair'):
                 o.add_shutdown_callback(InstantRepair())
+            if d.get('retry_repair'):
+                o.add_shutdown_callback(RetryRepair())
         return o
 
     def make_aux(self, d):
